@@ -43,6 +43,26 @@ pub fn run_clients<R: Send + 'static>(fs: Vec<Box<dyn FnOnce() -> R + Send>>) ->
     hs.into_iter().map(|h| h.join().expect("client thread panicked")).collect()
 }
 
+/// Under Miri threads advance in lock-step (pre-emption every ~100 basic blocks), so relative timing is fixed by
+/// path lengths: prefix each client with a seeded amount of busy work so that their operations start in varying orders.
+pub fn stagger<R: Send + 'static>(fs: Vec<Box<dyn FnOnce() -> R + Send>>, p: &mut crate::prng::Prng) -> Vec<Box<dyn FnOnce() -> R + Send>> {
+    fs.into_iter()
+        .map(|c| {
+            let n = p.below(6) * 150;
+            let y = p.below(5);
+            Box::new(move || {
+                for _ in 0..n {
+                    std::hint::spin_loop();
+                }
+                for _ in 0..y {
+                    std::thread::yield_now();
+                }
+                c()
+            }) as Box<dyn FnOnce() -> R + Send>
+        })
+        .collect()
+}
+
 struct FlagWaker(AtomicBool);
 impl Wake for FlagWaker {
     fn wake(self: Arc<Self>) {
